@@ -349,6 +349,8 @@ def data_fn_np(dspec, coords):
 #   factor = ["out"|"coord"|"data"|"par"|"dflt"|"fs", base, j, side]
 #          | ["d1"|"d2", out_base, j, out_side, var_base, i, var_side]
 #          | ["sin", factor] | ["imean", [factor, ...]]
+#          | ["dint", out_base, j, var_base, i]   mean over the integral points of d out_j / d var_i, where var is a
+#                                                 NON-integrated coordinate: grad(out_integral, var) / n_integral
 # ---------------------------------------------------------------------------------------------
 
 def factor_args(fac, acc):
@@ -363,6 +365,9 @@ def factor_args(fac, acc):
     elif k == "imean":
         for f in fac[1]:
             factor_args(f, acc)
+    elif k == "dint":
+        acc.add(("out", fac[1], "integral"))
+        acc.add(("coord", fac[3], ""))
     return acc
 
 
@@ -389,6 +394,13 @@ def _t_factor(fac, kw):
         if g2 is None:
             return torch.zeros_like(g[..., :1])
         return g2[..., fac[5]:fac[5] + 1]
+    if k == "dint":
+        u = kw[argname(fac[1], "integral")]
+        x = kw[argname(fac[3], "")]
+        g = torch.autograd.grad(u[..., fac[2]].sum(), x, create_graph=True, allow_unused=True)[0]
+        if g is None:           # the library's own operators return zeros for an unconnected input
+            g = torch.zeros_like(x)
+        return g[..., fac[4]:fac[4] + 1] / u.shape[1]
     if k == "sin":
         return torch.sin(_t_factor(fac[1], kw))
     if k == "imean":
@@ -454,6 +466,14 @@ class Resolver:
                 t = self.value(f, mag)
                 p = t if p is None else p * t
             v = np.mean(p, axis=1, keepdims=True)
+        elif k == "dint":
+            # pointwise derivative on the fully broadcast (n, n_integral) point set, then the mean over the integral axis
+            cs = {kk: np.asarray(a, dtype=np.float64) for kk, a in self.c["integral"].items()}
+            lead = np.broadcast_shapes(*[a.shape[:-1] for a in cs.values()])
+            full = {kk: np.ascontiguousarray(np.broadcast_to(a, lead + a.shape[-1:])) for kk, a in cs.items()}
+            v = np.asarray(self.twin.d1(full, fac[1], fac[2], fac[3], fac[4]))
+            v = np.broadcast_to(v, lead + (1,))
+            v = np.mean(np.abs(v) if mag else v, axis=1, keepdims=True)
         else:
             raise ValueError(k)
         return np.abs(v) if mag else v
